@@ -46,6 +46,21 @@ def chunkAppendFdRange (chunked : Bool) (content : Bytes) (off len : Nat) : Byte
   let d := (content.drop off).take len
   if chunked then chunkLenLine len ++ d ++ [cr, lf] else d
 
+/-- http_chunk_append_read_fd_range(): `len` bytes are announced, then pread()s until `len` bytes or
+    EOF; `avail` is what the file really holds from `off` on.  Returns the queued bytes and the rc
+    (-1 on a short read: the file is shorter than the size it was stat()ed with). -/
+def chunkAppendReadFd (chunked : Bool) (content : Bytes) (off len : Nat) : Bytes × Int :=
+  let d := (content.drop off).take len
+  ((if chunked then chunkLenLine len else []) ++ d ++ (if chunked then [cr, lf] else []),
+   if d.length = len then 0 else -1)
+
+/-- http_chunk_append_file_fd() / http_chunk_append_file_ref() with the size `sz` the caller
+    believes the file to have: files up to 32 KiB of a chunked response are read into memory -/
+def chunkAppendWholeFile (chunked : Bool) (content : Bytes) (sz : Nat) : Bytes × Int :=
+  if sz > 32768 || !chunked then (chunkAppend chunked (content.take sz), 0)
+  else if sz = 0 then ([], 0)
+  else chunkAppendReadFd chunked content 0 sz
+
 /-- http_chunk_close() (no backend trailers): the last-chunk and the final CRLF -/
 def chunkClose (chunked : Bool) : Bytes :=
   if chunked then [48, cr, lf, cr, lf] else []
